@@ -34,26 +34,100 @@ Qed.
 Lemma deliveries_of_app (a b : list entry) : deliveries_of (a ++ b) = deliveries_of a ++ deliveries_of b.
 Proof. unfold deliveries_of. rewrite map_app, concat_app. reflexivity. Qed.
 
+(** the tail is short: the session notices the cut within two steps (a partial last line is still processed as a line,
+    then the end of input ends the session; inside a DATA block the truncated block ends it at once) *)
+Lemma tail_tr_quit f c o s w : st s = QUIT -> tail_tr f c o s w = [].
+Proof. intros H. unfold tail_tr. rewrite run_stream_quit by exact H. reflexivity. Qed.
+
+Lemma tail_tr_nil_len f c o s : (length (tail_tr f c o s []) <= 1)%nat.
+Proof.
+  destruct f as [|f]; [cbn; lia|]. rewrite tail_tr_S.
+  destruct (st s) eqn:Es; try (cbn; lia);
+    (destruct (step c s (fst (next_item o s []))) as [s' r d| |] eqn:E; try (cbn; lia);
+     apply next_item_nil_quits in E; rewrite (tail_tr_quit f c o s' _ E); cbn; lia).
+Qed.
+
+Lemma tail_tr_partial_line_len f c o s w :
+  st s <> DATA -> ~ In LFb w -> (length (tail_tr f c o s w) <= 2)%nat.
+Proof.
+  intros Hd Hn. destruct w as [|b w]; [pose proof (tail_tr_nil_len f c o s); lia|].
+  destruct f as [|f]; [cbn; lia|]. rewrite tail_tr_S.
+  destruct (st s) eqn:Es; try (cbn; lia); try congruence;
+    (assert (Hni : next_item o s (b :: w) = (L (classify o (b :: w)), []));
+     [unfold next_item; rewrite Es; unfold read_line;
+      destruct (split_lf (b :: w)) as [[l r]|] eqn:S;
+      [apply split_lf_some in S as [S _]; exfalso; apply Hn; rewrite S; apply in_or_app; right; left; reflexivity
+      |reflexivity]|];
+     rewrite Hni; cbn [fst snd];
+     destruct (step c s (L (classify o (b :: w)))) as [s' r d| |]; try (cbn; lia);
+     pose proof (tail_tr_nil_len f c o s'); cbn [length]; lia).
+Qed.
+
+(** [next_item_prefix] with the length of what follows in its second alternative *)
+Lemma next_item_prefix_len c o s w k : st s <> QUIT ->
+  (exists k', next_item o s (firstn k w) = (fst (next_item o s w), firstn k' (snd (next_item o s w)))) \/
+  (forall f, tail_del f c o s (firstn k w) = [] /\ (length (tail_tr f c o s (firstn k w)) <= 2)%nat).
+Proof.
+  intros Hq. destruct (sstate_eqb (st s) DATA) eqn:Ed.
+  - assert (Es : st s = DATA) by (destruct (st s); try discriminate; reflexivity).
+    unfold next_item. rewrite Es.
+    destruct (dec BeginLine w) as [[body rest]|] eqn:D.
+    + destruct (Nat.le_gt_cases (length w - length rest) k) as [Hk|Hk].
+      * left. rewrite (dec_firstn_ge _ _ _ _ _ D Hk). eexists. reflexivity.
+      * right. intros f. pose proof (truncated_is_none _ _ _ _ k D Hk) as T.
+        destruct f as [|f]; [split; [reflexivity|cbn; lia]|].
+        rewrite tail_del_S, tail_tr_S, Es. unfold next_item. rewrite Es, T. cbn [fst snd].
+        destruct (step c s (B PEof)) as [s' r d| |] eqn:E; try (split; [reflexivity|cbn; lia]).
+        apply step_peof_quits in E as [Hs' ->]. rewrite tail_del_nil, (tail_tr_quit f c o s' _ Hs').
+        split; [reflexivity|cbn; lia].
+    + left. rewrite (dec_firstn_none _ _ k D). exists 0%nat. reflexivity.
+  - assert (Hd : st s <> DATA) by (intro E; rewrite E in Ed; discriminate).
+    assert (Hni : forall v, next_item o s v =
+              match read_line v with Some (line, rest) => (L (classify o line), rest) | None => (Eof, []) end)
+      by (intros v; unfold next_item; destruct (st s); try reflexivity; congruence).
+    rewrite !Hni.
+    destruct w as [|b w]; [left; exists 0%nat; rewrite firstn_nil; reflexivity|].
+    unfold read_line at 2 3.
+    destruct (split_lf (b :: w)) as [[l r]|] eqn:HS.
+    + apply split_lf_some in HS as [HS Hl].
+      destruct (Nat.le_gt_cases (S (length l)) k) as [Hk|Hk].
+      * left. exists (k - S (length l))%nat. rewrite HS.
+        replace (firstn k (l ++ LFb :: r)) with (l ++ LFb :: firstn (k - S (length l)) r).
+        2:{ rewrite firstn_app. replace (firstn k l) with l by (symmetry; apply firstn_all2; lia).
+            replace (k - length l)%nat with (S (k - S (length l))) by lia. reflexivity. }
+        unfold read_line. destruct (l ++ LFb :: firstn (k - S (length l)) r) eqn:E0;
+          [destruct l; discriminate|]. rewrite <- E0. rewrite split_lf_app by exact Hl. reflexivity.
+      * right. intros f.
+        assert (Hno : ~ In LFb (firstn k (b :: w))).
+        { rewrite HS. rewrite firstn_app. replace (k - length l)%nat with 0%nat by lia.
+          cbn [firstn]. rewrite app_nil_r. intro Hin. apply in_firstn in Hin. auto. }
+        split; [apply tail_del_partial_line; assumption|apply tail_tr_partial_line_len; assumption].
+    + right. intros f.
+      assert (Hno : ~ In LFb (firstn k (b :: w))).
+      { intro Hin. apply in_firstn in Hin. apply split_lf_none in HS. auto. }
+      split; [apply tail_del_partial_line; assumption|apply tail_tr_partial_line_len; assumption].
+Qed.
+
 Theorem cut_trace_fuel : forall fuel c o s w k,
   exists pre tl rest,
     tail_tr fuel c o s (firstn k w) = pre ++ tl /\
     tail_tr fuel c o s w = pre ++ rest /\
-    deliveries_of tl = [].
+    deliveries_of tl = [] /\ (length tl <= 2)%nat.
 Proof.
-  induction fuel as [|f IH]; intros c o s w k; [exists [], [], []; repeat split|].
+  induction fuel as [|f IH]; intros c o s w k; [exists [], [], []; repeat split; cbn; lia|].
   destruct (sstate_eqb (st s) QUIT) eqn:Eq.
   - assert (st s = QUIT) as Es by (destruct (st s); try discriminate; reflexivity).
-    rewrite !tail_tr_S, Es. exists [], [], []. repeat split.
+    rewrite !tail_tr_S, Es. exists [], [], []. repeat split; cbn; lia.
   - assert (st s <> QUIT) as Hq by (intro E; rewrite E in Eq; discriminate).
-    destruct (next_item_prefix c o s w k Hq) as [[k' Hn]|Hz].
+    destruct (next_item_prefix_len c o s w k Hq) as [[k' Hn]|Hz].
     + rewrite !tail_tr_S. rewrite Hn. cbn [fst snd].
-      destruct (st s); try (exists [], [], []; repeat split; fail);
-        (destruct (step c s (fst (next_item o s w))) as [s' r d| |]; try (exists [], [], []; repeat split; fail);
-         destruct (IH c o s' (snd (next_item o s w)) k') as (pre & tl & rest & H1 & H2 & H3);
+      destruct (st s); try (exists [], [], []; repeat split; cbn; lia);
+        (destruct (step c s (fst (next_item o s w))) as [s' r d| |]; try (exists [], [], []; repeat split; cbn; lia);
+         destruct (IH c o s' (snd (next_item o s w)) k') as (pre & tl & rest & H1 & H2 & H3 & H4);
          exists ((fst (next_item o s w), r, d) :: pre), tl, rest;
-         rewrite H1, H2; repeat split; exact H3).
+         rewrite H1, H2; repeat split; assumption).
     + exists [], (tail_tr (S f) c o s (firstn k w)), (tail_tr (S f) c o s w).
-      repeat split. rewrite <- tail_del_tr. apply Hz.
+      destruct (Hz (S f)) as [Z1 Z2]. repeat split; [rewrite <- tail_del_tr; exact Z1|exact Z2].
 Qed.
 
 (** The cut theorem on transcripts. *)
@@ -61,7 +135,7 @@ Theorem cut_trace_prefix : forall c o w k,
   exists pre tl rest,
     snd (fst (run_bytes c o (firstn k w))) = pre ++ tl /\
     snd (fst (run_bytes c o w)) = pre ++ rest /\
-    deliveries_of tl = [].
+    deliveries_of tl = [] /\ (length tl <= 2)%nat.
 Proof.
   intros c o w k. unfold run_bytes.
   rewrite (fuel_irrelevant (length (firstn k w) + 2) (length w + 2) c o init (firstn k w)).
@@ -77,8 +151,9 @@ Theorem cut_delivers_exactly_the_shared_part : forall c o w k,
     snd (fst (run_bytes c o (firstn k w))) = pre ++ tl /\
     snd (fst (run_bytes c o w)) = pre ++ rest /\
     deliveries_of (snd (fst (run_bytes c o (firstn k w)))) = deliveries_of pre /\
-    deliveries_of (snd (fst (run_bytes c o w))) = deliveries_of pre ++ deliveries_of rest.
+    deliveries_of (snd (fst (run_bytes c o w))) = deliveries_of pre ++ deliveries_of rest /\
+    (length tl <= 2)%nat.
 Proof.
-  intros c o w k. destruct (cut_trace_prefix c o w k) as (pre & tl & rest & H1 & H2 & H3).
-  exists pre, tl, rest. rewrite H1, H2, !deliveries_of_app, H3, app_nil_r. repeat split.
+  intros c o w k. destruct (cut_trace_prefix c o w k) as (pre & tl & rest & H1 & H2 & H3 & H4).
+  exists pre, tl, rest. rewrite H1, H2, !deliveries_of_app, H3, app_nil_r. repeat split. exact H4.
 Qed.
